@@ -946,7 +946,7 @@ def run(chk, ctx):
     chk.unproved = [
         'O(eps^2) agreement of the finite-difference H, scores, J, cU and of the derived GIM/FIM uncertainties, LRT adjustment, Wald and score statistics with the closed forms of '
         'linear Poisson models: numerical (L3: Richardson criterion at eps and eps/2 against analytic derivatives; the log-likelihood is not polynomial). Proved instead: exactness on '
-        'quadratics and the exact h^2 error terms on cubics/quartics',
+        'quadratics, the exact h^2 error terms on cubics/quartics, and that the closed forms themselves are the exact derivatives (C19_linear_poisson_exact_parts)',
         'round-off: theorems are about exact field arithmetic; the float code agrees with the exact model within 1e-9 plus the amplification u*|f|/(h_i h_j) inherent to differences',
         'numpy.linalg.inv / dot vs exact Gauss-Jordan: numerical (K), ill-conditioned J/H skipped on the model side',
         'Inference.ll inside get_godambe (property C11) and Spectrum(boot) re-wrapping: exercised, not modelled here',
